@@ -64,9 +64,13 @@ def run(tier):
     Ns = [8, 36, 180] if quick else [8, 24, 36, 90, 180]
     results = {}
     for v in VARIANTS:
-        for N in Ns:
+        for N, grid in [(N, "ascending from 0") for N in Ns] + [(36, "seam inside: -180..180 reduced to [0,360)"), (24, "seam inside: 90..450 reduced to [0,360)")]:
             d = np.linspace(0, 360, N, endpoint=False)
-            ctx = {"variant": vname(v), "N": N}
+            if grid.startswith("seam inside: -180"):
+                d = np.linspace(-180, 180, N, endpoint=False) % 360          # uniform on the circle, the 0/360 seam inside the array
+            elif grid.startswith("seam inside: 90"):
+                d = np.linspace(90, 450, N, endpoint=False) % 360
+            ctx = {"variant": vname(v), "N": N, "grid": grid}
             try:
                 D = estimate_directional_distribution(M[:, 0].copy(), M[:, 1].copy(), M[:, 2].copy(), M[:, 3].copy(), d, method=v[0], **v[1])
             except Exception as e:
@@ -82,7 +86,8 @@ def run(tier):
                               dict(ctx, error=str(e)[:300], moments=culprit))
                 continue
             evals += len(M)
-            results[(vname(v), N)] = D
+            if grid == "ascending from 0":
+                results[(vname(v), N)] = D
             step = 360.0 / N
             fin = np.all(np.isfinite(D), axis=-1)
             neg = np.min(np.where(np.isfinite(D), D, 0.0), axis=-1) < -1e-12
@@ -134,6 +139,29 @@ def run(tier):
             if bad is not None or not np.allclose(Db[0, 0], D1, rtol=1e-10, atol=1e-13, equal_nan=True):
                 chk.violation("batch-independence:%s" % vname(v), "an element of a batch does not get the result it gets alone",
                               dict(ctx, element=bad, moments=None if bad is None else arr[bad].tolist()))
+    # a per-call solver configuration must not change what a later default call does (returned without raising, same result)
+    for N in Ns[:2]:
+        d = np.linspace(0, 360, N, endpoint=False)
+        benign = np.array([[0.6, 0.2, 0.25, 0.2], [0.3, -0.5, -0.1, -0.3]])
+        for sm in ("newton", "scipy"):
+            key = ("mem2:%s" % sm, N)
+            if key not in results:
+                continue
+            try:
+                estimate_directional_distribution(benign[:, 0].copy(), benign[:, 1].copy(), benign[:, 2].copy(), benign[:, 3].copy(), d, method="mem2",
+                                                  solution_method=sm, solver_config={"atol": 1e-4, "use_mem_when_failing_to_converge": False})
+            except Exception:
+                pass          # what the configured call itself does is not the subject
+            try:
+                again = estimate_directional_distribution(M[:, 0].copy(), M[:, 1].copy(), M[:, 2].copy(), M[:, 3].copy(), d, method="mem2", solution_method=sm)
+            except Exception as e:
+                chk.violation("raise:after-configured-call:%s:%s" % (sm, type(e).__name__),
+                              "a default MEM2 conversion raises after an earlier call that passed its own solver_config", {"N": N, "solver": sm, "error": str(e)[:300]})
+                continue
+            evals += len(M)
+            if not np.allclose(again, results[key], rtol=1e-10, atol=1e-13, equal_nan=True):
+                chk.violation("config-history:%s" % sm, "a default MEM2 conversion gives a different result after an earlier call that passed its own solver_config",
+                              {"N": N, "solver": sm, "max_abs_diff": float(np.nanmax(np.abs(again - results[key])))})
     # neighbouring members with nearly equal moments (a solution carried from one member to the next must not change the result): the last
     # bin of member t and the first bin of member t+1 differ by at most 0.03 per moment, taken from the noisy / unrealisable quadruples too
     for v in VARIANTS:
